@@ -1410,7 +1410,7 @@ def compare(src, model, r):
     if r.cls in ("wall_timeout", "spawn_error"):
         return ("inconclusive", r.cls)
     text = r.out + r.err
-    if "Did not compile successfully" in text and core.BANNER not in r.err:
+    if core.compile_rejected(r):
         return ("rejected", r.out[-700:])
     got = r.lines()
     if r.cls == "cpu_timeout":
